@@ -206,7 +206,8 @@ def sinkTag (vr : Variant) (g : Graph) (rs : RuleSet) (s : PState) (n : Nat) : S
     let codeHit := rs.sinkCode.any (fun c =>
       (!vr.codeSinkUnit || strIn c.unitPath nd.unitPath) &&
       langOk vr c.lang nd && nd.lineNo + 1 == c.lineNum && strIn c.symbolName nd.operation)
-    { tag := r.2.1 || (codeHit && (g.inE n).any (fun e => symWithStatesTag g s e.peer)),
+    { tag := r.2.1 || (codeHit && (g.inE n).any (fun e =>
+        (!vr.codeSinkSymOnly || g.kindOf e.peer == K_SYMBOL) && symWithStatesTag g s e.peer)),
       vuln := (rules.getLast?).bind (·.vulnType),
       err := r.2.2 }
 
